@@ -199,6 +199,7 @@ type dataWorld struct {
 	// breakInsertOn: backend address whose connection is reset when the next INSERT arrives there (one shot)
 	breakInsertOn string
 	faulted       bool
+	child         string   // linked child table of the sharded table ("" = none)
 	sessDB        string   // the session's current database
 	gcopies       []string // database names of the global table's copies (mycat style), nil = one copy per slice
 }
@@ -386,7 +387,15 @@ func (d *dataWorld) isPhysicalOf(db, name, logicalDB, table string) bool {
 	if table == d.global {
 		return name == table
 	}
-	return strings.HasPrefix(name, table+"_") && db == strings.ToLower(d.physDB(logicalDB))
+	if !strings.HasPrefix(name, table+"_") || db != strings.ToLower(d.physDB(logicalDB)) {
+		return false
+	}
+	for _, ch := range name[len(table)+1:] {
+		if ch < '0' || ch > '9' {
+			return false // e.g. the linked child table t_x_child_0001 is not a sub-table of t_x
+		}
+	}
+	return len(name) > len(table)+1
 }
 
 func (d *dataWorld) physDB(logical string) string {
@@ -562,6 +571,10 @@ func runData(r *simkit.Run, prop string) {
 		}
 		ns.ShardRules = append(ns.ShardRules, g)
 	}
+	if tp.Chance(2, 3) {
+		d.child = rule.table + "_child"
+		ns.ShardRules = append(ns.ShardRules, &models.Shard{DB: rule.db, Table: d.child, Type: "linked", ParentTable: rule.table, Key: rule.key})
+	}
 	w, err := NewWorld(r, map[string]*models.Namespace{"ns1": ns}, WorldOpts{})
 	if err != nil {
 		r.Failf("harness", "NewWorld with rule %+v: %v", *rule.shard, err)
@@ -579,7 +592,7 @@ func runData(r *simkit.Run, prop string) {
 		return nil
 	}
 	r.SetSiteDensity(0, 0)
-	cfg := fmt.Sprintf("rule=%s slices=%d perSlice=%d global=%v", rule.typ, rule.nSlices, rule.perSlice, d.global != "")
+	cfg := fmt.Sprintf("rule=%s slices=%d perSlice=%d global=%v child=%v", rule.typ, rule.nSlices, rule.perSlice, d.global != "", d.child != "")
 	r.Logf("config %s shard=%+v", cfg, *rule.shard)
 	if !rule.mycat {
 		d.logical[sqlmini.Key(d.physDB(rule.db), rule.table)] = true
@@ -592,6 +605,9 @@ func runData(r *simkit.Run, prop string) {
 	d.ref.Create(rule.db, "t_plain", dataCols).Kinds = dataKinds
 	if d.global != "" {
 		d.ref.Create(d.gdb, d.global, dataCols).Kinds = dataKinds
+	}
+	if d.child != "" {
+		d.ref.Create(rule.db, d.child, dataCols).Kinds = dataKinds
 	}
 	finished := false
 	stats := map[string]int{}
